@@ -14,7 +14,7 @@ use easy_ml::tensors::indexing::{
     ShapeIterator, TensorAccess, TensorIterator, TensorOwnedIterator, TensorReferenceIterator,
     TensorReferenceMutIterator, TensorTranspose,
 };
-use easy_ml::tensors::views::{TensorMut, TensorRange, TensorRef, TensorReverse, TensorView};
+use easy_ml::tensors::views::{TensorMask, TensorMut, TensorRange, TensorRef, TensorRename, TensorReverse, TensorView};
 use easy_ml::tensors::Tensor;
 use tsrc::*;
 
@@ -511,6 +511,27 @@ fn titer<const D: usize>(kind: usize, wi: bool, term: &Term, k: usize) -> Sx {
                     }
                     _ => None,
                 },
+                _ => None,
+            },
+            Term::Mask(inner, masks) => match &**inner {
+                Term::Base(shape, data) => Some(forms::<TensorMask<i64, Leaf<D>, D>, D>(
+                    &|| {
+                        let (r, p) = leaf::<D>(shape, data).ok().unwrap();
+                        let masks: [Option<(usize, usize)>; D] = std::array::from_fn(|d| Some(masks[d]));
+                        (TensorMask::from_all(r, masks).ok().unwrap(), p)
+                    },
+                    kind, wi, k,
+                )?),
+                _ => None,
+            },
+            Term::Rename(inner, names) => match &**inner {
+                Term::Base(shape, data) => Some(forms::<TensorRename<i64, Leaf<D>, D>, D>(
+                    &|| {
+                        let (r, p) = leaf::<D>(shape, data).ok().unwrap();
+                        (TensorRename::from(r, names_arr(names)), p)
+                    },
+                    kind, wi, k,
+                )?),
                 _ => None,
             },
         })
